@@ -173,62 +173,37 @@ Theorem C02_same_error_refuted_by_schedule :
       r_errors r1 = [e1] /\ r_errors r2 = [e2] /\ lands e1 x /\ lands e2 x /\ e1 <> e2.
 Proof. exact same_error_refuted_by_schedule. Qed.
 
-(** ** composition with C01: every schedule yields the ExecuteRequest-algorithm data
+(** ** composition with C01: every schedule yields the ExecuteRequest-algorithm response
 
     (C01's model is coq/ExeA: the one its check ties to the code, with field arguments.)
     [plan_of code S D E fuel W] (Fut/BridgeC01.v) turns C01's world — schema [S], parsed document
     [D], variables [E], resolver-outcome tree [W] — into a plan tree by following C01's reference
-    ([ArgSpec]): CollectFields, field kinds, the argument step of ExecuteField ([s_with_args]: C05's CoerceArgumentValues,
-    then the outcome stored under [field_key name arguments]), ResolveAbstractType and result coercion are C01's own
-    definitions, used as they are; a coerced leaf value j becomes [VLeaf (code j)] for an
-    arbitrary coding [code] of leaf values into integers, and [tr code] translates C01's response
-    values accordingly.  [C02_bridge_data]: the data the plan denotes is C01's reference data.
-    Composed with C01_exec_data_eq and C02_run_conforms: for a typed document, whatever resolvers are
-    made asynchronous and whatever the fair schedule, the executor returns the data of the
-    GraphQL execution algorithm, which is also the data of C01's synchronous executor model.
+    ([ArgSpec]): CollectFields, field kinds, the argument step of ExecuteField ([s_with_args]: C05's
+    CoerceArgumentValues, then the outcome stored under [field_key name arguments]),
+    ResolveAbstractType and result coercion are C01's own definitions, used as they are; a
+    coerced leaf value j becomes [VLeaf (code j)] for an arbitrary coding [code] of leaf values
+    into integers, and [tr code] translates C01's response values accordingly.
 
-    PARTIAL — full statement: "... the same response", i.e. data AND the error for every visible
-    failure-null.  Proved: data ([…_data_partial]) and the positions of the failure-nulls
-    ([C02_bridge_null_paths], [C02_every_schedule_explains_reference_nulls_partial]: the reference's
-    failure-nulls sit at exactly the response paths of the plan's visible nulls, and each of them
-    gets an error under every schedule).  Gap: the error *candidates* — C01's errors carry source
-    locations and the reference throws nothing when CollectFields runs out of fuel, this plan's
-    carry an error kind and an out-of-fuel position is a [VBad]; that the error reported for a
-    null is one C01's reference admits there is C01_exec_errors_complete on the C01 side and
-    [conforms] on this side, not yet one statement. *)
+    Three bridge lemmas about the plan itself — [C02_bridge_data]: the data the plan denotes is
+    C01's reference data; [C02_bridge_null_paths]: the reference's failure-nulls sit at exactly the
+    response paths of the plan's visible nulls (no typing hypothesis needed);
+    [C02_bridge_candidates]: for a typed document, also with the same candidate errors —
+    and their composition with C01_exec_data_eq and C02_run_conforms:
+    [C02_every_schedule_yields_ExecuteRequest_response] (one operation) and
+    [C02_every_schedule_yields_request_response] (a whole request). *)
 Theorem C02_bridge_data : forall code S D E fuel W,
   data_shape (plan_of code S D E fuel W) =
   tr_data code (ArgSpec.data (ArgSpec.exec_spec S D E fuel W)).
 Proof. exact bridge_data. Qed.
 
-Theorem C02_every_schedule_yields_ExecuteRequest_data_partial :
-  forall (code : ArgData.json -> Z) S D E fuel n W d errs md root sigma fuelr jfuel,
-  ArgHyps.type_names_okb S = true -> ArgHyps.doc_positions_okb D = true ->
-  ArgSpec.doc_ok S D E fuel n = true ->
-  ArgModel.run ArgModel.fixed S D E fuel W = ArgModel.Done d errs ->
-  same_outcomes root (plan_of code S D E fuel W) ->
-  fair sigma -> count_async root <= fuelr -> resp_depth root < jfuel ->
-  exists r, run fixed_flags sigma md fuelr jfuel root = Done r /\
-            r_data r = tr_data code d /\
-            r_data r = tr_data code (ArgSpec.data (ArgSpec.exec_spec S D E fuel W)) /\
-            conforms root (r_data r) (r_errors r).
-Proof. exact schedule_yields_reference_data. Qed.
 
 Theorem C02_bridge_null_paths : forall code S D E fuel W,
   null_paths (ArgSpec.failure_nulls (ArgSpec.exec_spec S D E fuel W)) =
   site_paths (visible_nulls (plan_of code S D E fuel W)).
 Proof. exact bridge_null_paths. Qed.
 
-Theorem C02_every_schedule_explains_reference_nulls_partial :
-  forall (code : ArgData.json -> Z) S D E fuel W md root sigma fuelr jfuel,
-  same_outcomes root (plan_of code S D E fuel W) ->
-  fair sigma -> count_async root <= fuelr -> resp_depth root < jfuel ->
-  exists r, run fixed_flags sigma md fuelr jfuel root = Done r /\
-            null_paths (ArgSpec.failure_nulls (ArgSpec.exec_spec S D E fuel W)) = site_paths (visible_nulls root) /\
-            Forall (fun x => exists e, In e (r_errors r) /\ lands e x) (visible_nulls root).
-Proof. exact schedule_yields_reference_nulls. Qed.
 
-(** Round 4: the candidates, too.  [null_sites] erases the source locations of C01's errors,
+(** The candidates.  [null_sites] erases the source locations of C01's errors,
     [plan_sites] the error kinds of this plan's; what is left of a failure-null is its response path
     and the response paths of the errors that may explain it.  For a typed document (C01's [doc_ok],
     which also keeps CollectFields from running out of fuel) the two readings coincide, so
@@ -404,9 +379,7 @@ Print Assumptions C02_same_error_as_reference.
 Print Assumptions C02_same_error_refuted.
 Print Assumptions C02_same_error_refuted_by_schedule.
 Print Assumptions C02_bridge_data.
-Print Assumptions C02_every_schedule_yields_ExecuteRequest_data_partial.
 Print Assumptions C02_bridge_null_paths.
-Print Assumptions C02_every_schedule_explains_reference_nulls_partial.
 Print Assumptions C02_bridge_candidates.
 Print Assumptions C02_every_schedule_yields_ExecuteRequest_response.
 Print Assumptions C02_every_schedule_yields_request_response.
